@@ -114,6 +114,10 @@ type TrFunc struct {
 	// Identity lists method names whose call returns the receiver's value
 	// unchanged (datasize.ByteSize.Bytes: `return uint64(b)`).
 	Identity []string `json:"identity,omitempty"`
+	// Opaque lists printed callee expressions that stay opaque although the
+	// callee is in the translation list (e.g. a method that mutates a shared
+	// object through a pointer field).
+	Opaque []string `json:"opaque,omitempty"`
 	// Pure lists printed callee expressions whose calls are opaque *values*
 	// that are not recorded in the trace (getters such as t.UnixNano).
 	Pure []string `json:"pure,omitempty"`
@@ -534,6 +538,36 @@ func implementsError(t types.Type) bool {
 // exprAs translates e for a context of type to (implicit conversion of a
 // concrete error value to the error interface).
 func (c *fctx) exprAs(e ast.Expr, to types.Type) ex {
+	if to != nil && c.t.leanType(to) == "" && c.t.valType(to) == "AbsPtr" {
+		// a value flowing into an abstract nil-able type: only its nil-ness is kept
+		if id, ok := e.(*ast.Ident); ok && id.Name == "nil" {
+			return ex{code: "false"}
+		}
+		if u, ok := e.(*ast.UnaryExpr); ok && u.Op == token.AND {
+			if cl, ok := u.X.(*ast.CompositeLit); ok {
+				var xs []ex
+				for _, el := range cl.Elts {
+					v := el
+					if kv, ok := el.(*ast.KeyValueExpr); ok {
+						v = kv.Value
+					}
+					if call, isCall := v.(*ast.CallExpr); isCall && !c.matches(c.spec.Pure, call) {
+						xs = append(xs, c.expr(v))
+					}
+				}
+				return c.bindN(xs, func(s []string) string {
+					if len(s) == 0 {
+						return "true"
+					}
+					return "(Function.const _ true (" + strings.Join(s, ", ") + "))"
+				})
+			}
+		}
+		if from := c.typeOf(e); c.t.leanType(from) != "" && isPtrStruct(from) {
+			x := c.expr(e)
+			return c.bindN([]ex{x}, func(s []string) string { return "(" + s[0] + ").isSome" })
+		}
+	}
 	if to != nil && isError(to) {
 		if id, ok := e.(*ast.Ident); ok && id.Name == "nil" {
 			return ex{code: "none"}
@@ -1013,6 +1047,9 @@ func (c *fctx) call(x *ast.CallExpr) ex {
 		return c.bindN(xs, func(s []string) string { return "(" + fn + " " + strings.Join(s, " ") + ")" })
 	}
 	// translated functions
+	if c.matches(c.spec.Opaque, x) {
+		key = ""
+	}
 	if fo := c.t.lookup(key); fo != nil && len(fo.paramsOpaque()) == 0 && !fo.spec.Trace {
 		var xs []ex
 		if recvExpr != nil {
